@@ -51,6 +51,7 @@ _BYTES_ESCAPE_RE = re.compile(rb'[\\\'\x00-\x1f\x7e-\xff]')
 _NON_PRINTABLE_RE = re.compile(
     r'[\u0000-\u0008\u000B\u000C\u000E-\u001F\u007F\u0080-\u009F\n'
     r'\u202A-\u202E\u2066-\u2069]')
+_DOLLAR_UNSAFE_RE = re.compile(r'[\u0000\u202A-\u202E\u2066-\u2069]')
 _ESCAPES = {
     b'\\': b'\\\\',
     b'\'': b'\\\'',
@@ -70,6 +71,15 @@ def _bytes_escape(match: Match[bytes]) -> bytes:
         return _ESCAPES[char]
     except KeyError:
         return b'\\x%02x' % char[0]
+
+
+def _code_literal(text: str) -> str:
+    # A dollar-quoted string has no escapes: the lexer refuses NUL and the
+    # bidirectional formatting characters in it, so fall back to the
+    # escaped form for those.
+    if _DOLLAR_UNSAFE_RE.search(text):
+        return edgeql_quote.quote_literal(text)
+    return edgeql_quote.dollar_quote_literal(text)
 
 
 def param_to_str(ident: str) -> str:
@@ -2290,8 +2300,7 @@ class EdgeQLSourceGenerator(codegen.SourceGenerator):
             from_clause = f'USING {node.code.language} '
             self._write_keywords(from_clause)
             if node.code.code:
-                self.write(edgeql_quote.dollar_quote_literal(
-                    node.code.code))
+                self.write(_code_literal(node.code.code))
 
         if node.commands:
             self._block_ws(-1)
@@ -2367,7 +2376,7 @@ class EdgeQLSourceGenerator(codegen.SourceGenerator):
             elif node.code.from_expr:
                 from_clause += 'EXPRESSION'
             elif node.code.code:
-                code = edgeql_quote.dollar_quote_literal(node.code.code)
+                code = _code_literal(node.code.code)
 
             self._write_keywords(from_clause)
             if code:
